@@ -23,6 +23,7 @@ def main():
     chk, res = got
     chk.run_witnesses(__import__('chanrun').BINS['dbg'])
     interleavings = set()
+    known_nets = chancheck.load_known_networks()
     for r in res:
         if 'skip' in r:
             chk.count('generator_skips')
@@ -41,6 +42,16 @@ def main():
             files = {'main.lay': r['text'], 'stdout.txt': run['stdout'], 'stderr.txt': run['stderr']}
             info = {'stratum': r['stratum'], 'idx': r['idx'], 'cfg': run['cfg'], 'chans': net['chans']}
             kinds = sorted(set(p[0] for p in run['problems']))
+            if r.get('seed') == chancheck.FIXED_SEED and 'sync-sender-early' in kinds:
+                listed = known_nets.get(r['stratum'], {}).get(str(r['idx']))
+                if listed == 'sync-sender-early':
+                    f = [x for x in chk.findings['findings'] if x['id'] == 'D16']
+                    chk.known.setdefault('D16', {'what': f[0]['what_fails'], 'n': 0})
+                    chk.known['D16']['n'] += 1
+                else:
+                    chk.violation('fixed-corpus %s#%d: sync-sender-early on a network not listed in known_networks.json' % (
+                        r['stratum'], r['idx']), files, info)
+                continue
             if 'sync-sender-early' in kinds:
                 # D16: once a synchronous sender has been resumed early the rest of the history is tainted
                 chk.violation(('clean-stratum ' if r['stratum'] == 'sync2' else '') + 'sync-sender-early: ' + run['problems'][0][1], files, info)
